@@ -285,6 +285,78 @@ example : ∃ (env : Env Unit), hasError [Rank.warning] = false ∧
      serialize := fun _ _ => .ok [], decorate := fun x => .ok x, canOpen := fun _ => true,
      warnRaises := false }, by decide, rfl, rfl, rfl, rfl⟩
 
+/-! ### Which issues are warnings: by the rule they come from
+
+The property names the ways of being invalid; every other thing the validation can say about a
+document is a warning. Over the table regenerated from the source of the registered rules this is
+a decidable fact, and with it "warnings only" no longer depends on what the validation is *told*
+to rank as an error: a document all of whose issues come from registered rules other than the
+four blocking ones is written. -/
+
+/-- Every rule the library registers either is one of the four rules that detect the ways of being
+    invalid the property names — and then all its issues are errors — or can only warn. -/
+theorem nonblocking_rules_rank_warning :
+    (∀ r ∈ registeredRules, (r ∈ blockingRules ∧ ruleRank r = some .error) ∨
+                            (r ∉ blockingRules ∧ ruleRank r = some .warning)) ∧
+    (∀ r ∈ blockingRules, r ∈ registeredRules) := by
+  decide
+
+/-- Issues of rules that are not blocking never add up to an error. -/
+theorem ranksOf_nonblocking (rules : List String)
+    (hr : ∀ r ∈ rules, r ∈ registeredRules ∧ r ∉ blockingRules) :
+    hasError (ranksOf rules) = false := by
+  induction rules with
+  | nil => rfl
+  | cons r rs ih =>
+    have h1 := hr r (by simp)
+    have h2 : ruleRank r = some .warning := by
+      rcases nonblocking_rules_rank_warning.1 r h1.1 with h | h
+      · exact absurd h.1 h1.2
+      · exact h.2
+    have ih' := ih (fun x hx => hr x (by simp [hx]))
+    simp only [ranksOf, hasError, List.map_cons, List.any_cons, h2, Option.getD] at ih' ⊢
+    simpa using ih'
+
+/-- **A document with warnings only is written**, with "warnings only" read off the rules: all
+    its issues come from registered rules other than the blocking ones (untyped "n.s." Section,
+    unnamed object, dependency that names no sibling or whose value does not match, values not of
+    the dtype, text values that look like another dtype, violated cardinalities — whatever the
+    table lists). For every backend / RDF sub-format, target and file system the target then
+    holds exactly the rendered text and a warning is reported iff there is an issue. -/
+theorem warning_rule_issues_written {Doc} (env : Env Doc) (d : Doc) (rules : List String)
+    (hr : ∀ r ∈ rules, r ∈ registeredRules ∧ r ∉ blockingRules)
+    (hv : env.validate d = .ok (ranksOf rules))
+    (hw : (!rules.isEmpty && env.warnRaises) = false)
+    (b : Backend) (f : Option (List Char)) (text : Bytes) (ht : textOf env b f d = .ok text)
+    (p : Path) (hc : env.canOpen p = true) (fs : Fs) :
+    odmlWriterWriteFile env b f d p fs = (fs.write p text, .ok (!rules.isEmpty)) := by
+  have he := ranksOf_nonblocking rules hr
+  have hem : (ranksOf rules).isEmpty = rules.isEmpty := by
+    cases rules <;> simp [ranksOf]
+  have := warnings_only_written env d (ranksOf rules) hv he (by rw [hem]; exact hw) b f text ht p hc fs
+  rw [hem] at this
+  exact this
+
+/-- And the converse: one issue of a blocking rule among them and the document is refused with
+    `ParserException`, nothing touched. -/
+theorem blocking_rule_issue_refused {Doc} (env : Env Doc) (d : Doc) (rules : List String)
+    (r : String) (hm : r ∈ rules) (hb : r ∈ blockingRules)
+    (hv : env.validate d = .ok (ranksOf rules))
+    (b : Backend) (f : Option (List Char)) (p : Path) (fs : Fs) :
+    odmlWriterWriteFile env b f d p fs = (fs, .raised .parserException) := by
+  apply invalid_never_written env d (ranksOf rules) hv
+  have h2 : ruleRank r = some .error := by
+    rcases nonblocking_rules_rank_warning.1 r (nonblocking_rules_rank_warning.2 r hb) with h | h
+    · exact h.2
+    · exact absurd hb h.1
+  simp only [hasError, ranksOf, List.any_eq_true, List.mem_map]
+  exact ⟨.error, ⟨r, hm, by simp [h2]⟩, by decide⟩
+
+example : "property_dependency_check" ∈ registeredRules ∧
+    "property_dependency_check" ∉ blockingRules ∧
+    ranksOf ["property_dependency_check", "section_type_must_be_defined"] = [.warning, .warning] := by
+  decide
+
 /-! ## 4. Any history of saves -/
 
 /-- After **any sequence** of saves — valid and invalid documents, failing renderers, refused
